@@ -5,6 +5,7 @@
 #include "aln_param.h"
 
 #include "aln_struct.h"
+#include "kalign_verif.h"
 
 #define ALN_SEQSEQ_IMPORT
 #include "aln_seqseq.h"
@@ -13,6 +14,7 @@
 
 int aln_seqseq_foward(struct aln_mem* m)
 {
+        KV_EVENT(KV_FWD_BEGIN, m, NULL, 0, 0, 0);
         struct states* s = m->f;
         const uint8_t* seq1 = m->seq1;
         const uint8_t* seq2 = m->seq2;
@@ -107,11 +109,13 @@ int aln_seqseq_foward(struct aln_mem* m)
                         s[j].gb = MAX(s[j].gb,ca)-tgpe;
                 }
         }
+        KV_EVENT(KV_FWD_END, m, NULL, 0, 0, 0);
         return OK;
 }
 
 int aln_seqseq_backward(struct aln_mem* m)
 {
+        KV_EVENT(KV_BWD_BEGIN, m, NULL, 0, 0, 0);
         struct states* s = m->b;
         const uint8_t* seq1 = m->seq1;
         const uint8_t* seq2 = m->seq2;
@@ -219,12 +223,14 @@ int aln_seqseq_backward(struct aln_mem* m)
                         s[j].gb = MAX(s[j].gb,ca)-tgpe;
                 }
         }
+        KV_EVENT(KV_BWD_END, m, NULL, 0, 0, 0);
         return OK;
 }
 
 
 int aln_seqseq_meetup(struct aln_mem* m,int old_cor[],int* meet,int* t,float* score)
 {
+        KV_EVENT(KV_MEETUP_BEGIN, m, NULL, 0, 0, 0);
         struct states* f = m->f;
         struct states* b = m->b;
 
@@ -337,5 +343,6 @@ int aln_seqseq_meetup(struct aln_mem* m,int old_cor[],int* meet,int* t,float* sc
         *meet = c;
         *t = transition;
         *score = max;
+        KV_EVENT(KV_MEETUP_END, m, NULL, 0, 0, 0);
         return OK;
 }
